@@ -3,6 +3,7 @@
 mod json;
 mod model;
 mod props;
+mod refpng;
 mod report;
 mod rng;
 mod util;
